@@ -3,7 +3,7 @@
    stored under [id]; [extent] = the MIN(start)/MAX(end) query of _update_relations; [derive] the
    derived features it writes; [insert_derived] their insertion (merge on collision). *)
 From GV Require Import Base.Prelude Base.PyStr Model.Bins Model.DB Model.Parser Model.Import Model.GtfSpec
-  Proofs.C03Proofs Proofs.C03End Proofs.C03Ids Proofs.C03Pop.
+  Proofs.C03Proofs Proofs.C03End Proofs.C03Ids Proofs.C03Pop Proofs.C03Total.
 Open Scope Z_scope.
 
 (* no line is ever its own parent or child — for every line, key and configuration *)
@@ -168,3 +168,11 @@ Theorem C03_import_end_to_end : forall call g strat force fs,
                       (x = mkRel t (snd p) 1 \/ x = mkRel gn (snd p) 2 \/ x = mkRel gn t 1)).
 Proof. exact l_import_gtf_end_to_end. Qed.
 Print Assumptions C03_import_end_to_end.
+
+(* the derivation phase never aborts an import (true since the repair of F26): on any stored state whose rows have both
+   coordinates - whatever mixture of lines, explicit gene/transcript lines, genes named only by a transcript line, earlier
+   imports - every (transcript, gene) pair's transcript owns a stored subfeature and so has an extent, and a gene id under
+   which no subfeature is filed is skipped: [derive] returns a list of derived rows, for all four flag combinations *)
+Theorem C03_derivation_total : forall g st, coords_ok st -> exists ds, derive g st (tg_pairs g st) None = Ok ds.
+Proof. exact l_derivation_total. Qed.
+Print Assumptions C03_derivation_total.
